@@ -1,7 +1,7 @@
 SPECIFICATION Spec
 CONSTANTS
-  Caps = {64, 96, 144}
-  Modes = {"no", "yes", "internal"}
+  Caps = {64, 144}
+  Modes = {"yes", "internal"}
   Kinds = {"node"}
   ULens = {0}
   TagLens <- TagLens1
